@@ -355,8 +355,15 @@ class InputsMachine(Machine):
             op['actor'] = rng.pick(sorted(st.actors))
             op['pick'] = rng.randrange(1000)
         if st.cfg['fault_tier'] and rng.chance(0.7):
-            op['fail_at'] = 1 + int(rng.expovariate(1.0 / st.cfg[
-                'fail_scale']))
+            if rng.chance(0.5):
+                op['fail_at'] = 1 + int(rng.expovariate(1.0 / st.cfg[
+                    'fail_scale']))
+            else:
+                # a position uniform over the whole length of the call
+                # (measured by first making the same call without a fault):
+                # clean-up code at the end of long functions is reached as
+                # often as their first lines
+                op['fail_frac'] = round(rng.random(), 4)
         return op
 
     # ------------------------------------------------------------------
@@ -364,10 +371,33 @@ class InputsMachine(Machine):
         """Run one step; optionally inject a MemoryError at the n-th line
         event executed inside photutils."""
         n = op.get('fail_at')
-        if not n:
+        if not n and op.get('fail_frac') is None:
             return call(fn)
         count = [0]
         fired = [False]
+        if not n:
+            # dry run: the same (legitimate) call, counting line events
+            def lcount(frame, event, arg):
+                if event == 'line':
+                    count[0] += 1
+                return lcount
+
+            def tcount(frame, event, arg):
+                fnm = frame.f_code.co_filename
+                if '/photutils/' in fnm and '/simphot/' not in fnm:
+                    return lcount
+                return None
+            old = sys.gettrace()
+            sys.settrace(tcount)
+            try:
+                out0 = call(fn)
+            finally:
+                sys.settrace(old)
+            total, count[0] = count[0], 0
+            if total == 0:
+                return out0
+            n = 1 + min(total - 1, int(op['fail_frac'] * total))
+            st.stats.probe('fault_placed_uniformly_over_call')
 
         def local(frame, event, arg):
             if event == 'line':
@@ -1303,9 +1333,10 @@ class InputsMachine(Machine):
         return st.nsteps >= 2
 
     def simpler_ops(self, op):
-        if op.get('fail_at'):
+        if op.get('fail_at') or op.get('fail_frac') is not None:
             o = dict(op)
-            o.pop('fail_at')
+            o.pop('fail_at', None)
+            o.pop('fail_frac', None)
             yield o
         if op.get('use_mask'):
             yield {**op, 'use_mask': False}
